@@ -489,6 +489,15 @@ def pool():
         f_resp(lambda: Declined()),
         f_resp(lambda: Response(b"teapot", status_code=418)),
         f_resp(lambda: Response(b"", status_code=304, headers={"ETag": '"e"'})),
+        # every constructor argument of the not-modified response (date as text, seconds and datetime)
+        f_resp(lambda: NotModifiedResponse(etag='W/"x"', content_location="/doc/é".encode().decode("latin-1"),
+                                           date="Tue, 15 Nov 1994 08:12:31 GMT")),
+        f_resp(lambda: NotModifiedResponse(headers={"Cache-Control": "max-age=5"}, date=784887151)),
+        f_resp(lambda: NotModifiedResponse(headers=[("Expires", "0"), ("Set-Cookie", "k=v")],
+                                           date=__import__("datetime").datetime(2000, 2, 29, 23, 59, 59,
+                                                                              tzinfo=__import__("datetime").timezone.utc),
+                                           vary="Accept-Encoding, Cookie")),
+        f_resp(lambda: NotModifiedResponse()),
     ]
     for group in (plain, junk, tuples, resps):
         for f in group:
